@@ -237,6 +237,10 @@ class Program:
         self.workspace_crates = {c for (c, _t) in crates}
         self._cg = None
         CONSTS.clear()
+        CONST_BODIES.clear()
+        for b in self.bodies:
+            if b["dk"].startswith(("Const", "AssocConst", "Static")):
+                CONST_BODIES[b["q"]] = b["body"]
         for _ in range(2):
             for b in self.bodies:
                 if b["dk"].startswith(("Const", "AssocConst")) and b["q"] not in CONSTS:
@@ -435,6 +439,21 @@ def diverges(n):
     return False
 
 
+import re as _re_mod
+_ARRAY_T = _re_mod.compile(r"^&*\[.*; (\d+)\]$")
+
+
+CONST_BODIES = {}
+
+
+def walk_with_consts(n, depth=2):
+    """walk_nodes that also enters the initialiser of every named constant the expression mentions (`MAGIC` for `b"PMTiles"`)"""
+    for y in walk_nodes(n):
+        yield y
+        if depth > 0 and y.get("k") == "path" and y.get("r") == "def" and y.get("q") in CONST_BODIES:
+            yield from walk_with_consts(CONST_BODIES[y["q"]], depth - 1)
+
+
 def const_eval(n, env):
     """evaluate an integer expression tree with locals from env (name or hid -> int); None if not evaluable"""
     n = unparen(strip(n)) if n is not None else None
@@ -459,6 +478,13 @@ def const_eval(n, env):
         place = place_str(n)
         if place in env:
             return env[place]
+        if nm == "len" and not n.get("a"):
+            # the length of an array (or of a reference to one) is part of its type: `MAGIC.len()` for `const MAGIC: &[u8; 7]`
+            r_ = strip(n["recv"])
+            for t_ in ((r_ or {}).get("t"), (n["recv"] or {}).get("t")):
+                m_ = _ARRAY_T.match((t_ or "").replace("&'static ", "&"))
+                if m_:
+                    return int(m_.group(1))
         if nm in ("div", "add", "sub", "mul", "rem", "shr", "shl", "saturating_sub", "wrapping_sub", "min", "max") and n.get("a"):
             a, b = const_eval(n["recv"], env), const_eval(n["a"][0], env)
             if a is None or b is None:
